@@ -631,44 +631,59 @@ impl ViCut {
 
 		Ok(())
 	}
+	/// Run the keys of a `:normal!` on the current buffer, starting in normal mode at the cursor
+	///
+	/// The keys get a reader of their own: whatever follows the ex command in the key string is not theirs to consume.
+	/// Like Vim, an unfinished command is abandoned and insert mode is left when the keys run out.
+	fn run_normal_seq(&mut self, seq: &str) -> Result<(),String> {
+		let mut reader = RawReader::new().with_initial(seq.as_bytes());
+		std::mem::swap(&mut self.reader, &mut reader);
+		self.mode = Box::new(ViNormal::new());
+		let result = self.exec_loop();
+		self.set_normal_mode();
+		std::mem::swap(&mut self.reader, &mut reader);
+		result
+	}
 	fn exec_ex_normal(&mut self, cmd: ViCmd) -> Result<(),String> {
 		let ViCmd { register: _, verb, motion, raw_seq: _, flags: _ } = cmd;
 		let VerbCmd(_,Verb::Normal(seq)) = verb.unwrap() else { unreachable!() };
 		let mut mode: Box<dyn ViMode> = Box::new(ViNormal::new());
 		std::mem::swap(&mut self.mode, &mut mode);
-		match motion.unwrap().1 {
+		let result = match motion.unwrap().1 {
 			Motion::Line(addr) => {
-				let line_no = self.current_buffer().eval_line_addr(addr)
-					.ok_or("Failed to evaluate line address".to_string())?;
-				let (start,_) = self.current_buffer().line_bounds(line_no)
-					.ok_or(format!("Failed to get line bounds for line {line_no}"))?;
-				self.current_buffer().cursor.set(start);
-				self.reader.push_bytes_front(seq.as_bytes());
-
-				self.exec_loop()?;
+				self.current_buffer().eval_line_addr(addr)
+					.ok_or("Failed to evaluate line address".to_string())
+					.and_then(|line_no| self.exec_ex_normal_lines(line_no, line_no, &seq))
 			}
 			Motion::LineRange(start, end) => {
-				let start_ln = self.current_buffer().eval_line_addr(start)
-					.ok_or("Failed to evaluate line address".to_string())?;
-				let end_ln = self.current_buffer().eval_line_addr(end)
-					.ok_or("Failed to evaluate line address".to_string())?;
-				let (start_ln,end_ln) = ordered(start_ln, end_ln);
-
-				for line in start_ln..=end_ln {
-					let mut mode: Box<dyn ViMode> = Box::new(ViNormal::new());
-					std::mem::swap(&mut self.mode, &mut mode);
-
-					let (start,_) = self.current_buffer().line_bounds(line)
-						.ok_or("Failed to evaluate line address".to_string())?;
-					self.current_buffer().cursor.set(start);
-					self.reader.push_bytes_front(seq.as_bytes());
-
-					self.exec_loop()?;
+				let start_ln = self.current_buffer().eval_line_addr(start);
+				let end_ln = self.current_buffer().eval_line_addr(end);
+				match (start_ln,end_ln) {
+					(Some(start_ln),Some(end_ln)) => {
+						let (start_ln,end_ln) = ordered(start_ln, end_ln);
+						self.exec_ex_normal_lines(start_ln, end_ln, &seq)
+					}
+					_ => Err("Failed to evaluate line address".to_string())
 				}
 			}
 			_ => unreachable!()
-		}
+		};
 		std::mem::swap(&mut self.mode, &mut mode);
+		result
+	}
+	/// Run `seq` with the cursor at the start of each of the lines `start_ln..=end_ln` (zero-indexed), by line number
+	fn exec_ex_normal_lines(&mut self, start_ln: usize, end_ln: usize, seq: &str) -> Result<(),String> {
+		if end_ln >= self.current_buffer().line_count() {
+			return Err("Invalid range".to_string())
+		}
+		for line in start_ln..=end_ln {
+			// The keys may have deleted lines: past the end, the last line is used
+			let line = line.min(self.current_buffer().line_count().saturating_sub(1));
+			let (start,_) = self.current_buffer().line_bounds(line)
+				.ok_or(format!("Failed to get line bounds for line {line}"))?;
+			self.current_buffer().cursor.set(start);
+			self.run_normal_seq(seq)?;
+		}
 		Ok(())
 	}
 	pub fn descend(&mut self) {
